@@ -732,7 +732,9 @@ class VerilogGenerator:
             link = ",\n\t"
 
         for outp in obj.outPorts:
-            str += link + "output " + reg + getWidthInfo(outp.wire) + " " + getPortName(outp)+ ""
+            # registered outputs power up at 0, like the wires of the simulator
+            init = " = 0" if (len(reg) > 0) else ""
+            str += link + "output " + reg + getWidthInfo(outp.wire) + " " + getPortName(outp)+ init
             link = ",\n\t"
 
         for outp in obj.inOutPorts:
